@@ -25,6 +25,8 @@ OUTSIDE = ["byte identity of whole runs under a real ProcessPoolExecutor", "merg
 
 
 def setup_symbolic():
+    from props import handoff
+    handoff.setup_symbolic()
     c05.setup_symbolic()
     c09.setup_symbolic()
     c10.setup_symbolic()
@@ -215,6 +217,15 @@ def instances(tier, seed):
         out.append(Instance("feature_table_set_order[%s]" % locus, h_feature_table_order(locus), ["src.gene_info:GeneInfo.set_feature_properties",
                                                                                                  "src.gene_info:FeatureInfo.to_str"],
                             "locus %s (features shared by two genes), both iteration orders of every set in src.gene_info" % locus, weight=10))
+    # memory mode: the hand-off between read collection and processing (totals, polyA fraction, verdicts) - shared with C08
+    from props import handoff, c18
+    out.append(Instance("memory_mode_handoff[alignments=2]", handoff.h_handoff(2),
+                        ["src.dataset_processor:DatasetProcessor.collect_reads", "src.dataset_processor:DatasetProcessor.prepare_multimapper_dict",
+                         "src.dataset_processor:DatasetProcessor.resolve_multimappers"],
+                        "2 alignments with solver-chosen read id / chromosome / class / secondary flag; default and --high_memory side by side", weight=3000, budget_s=1800))
+    # thread schedule: two chromosomes handled by one worker ask about introns at the same coordinates (shared with C18)
+    out.append(Instance("strand_detectors_independent", c18.h_detector_independent, ["src.gene_info:StrandDetector.__init__", "src.gene_info:StrandDetector.count_canonical_sites"],
+                        "two detectors, one intron at the same coordinates, all 25 x 25 site pairs", weight=20))
     out.append(Instance("exon_id_storage_fresh", c10.h_id_storage_fresh, ["src.dataset_processor:construct_models_in_parallel", "src.id_policy:FeatureIdStorage.__init__"],
                         "two consecutive chromosome runs in one worker process", weight=30))
     # hash seed: group universe order (shared with C09)
